@@ -663,6 +663,10 @@ static const void *get_setup_template(long ch,long srate,
           float high=map[j+1];
           float del=(req-low)/(high-low);
           *base_setting=j+del;
+          /* j+del is evaluated in float: a request just below map[j+1]
+             rounds up to j+1, which in the last segment would index one
+             past the end of every per-setting table */
+          if(*base_setting>=mappings)*base_setting=mappings-.001;
         }
 
         return(setup_list[i]);
